@@ -253,7 +253,7 @@ struct Scen {
 }
 
 struct Tables { methods: Vec<Scen>, tols: Vec<Scen>, steps: Vec<Scen>, evattrs: Vec<Scen>, jacs: Vec<Scen>,
-                shapes: Vec<Scen>, patterns: Vec<Scen>, evundoc: Vec<Scen> }
+                shapes: Vec<Scen>, patterns: Vec<Scen>, evundoc: Vec<Scen>, spforms: Vec<Scen> }
 
 fn d(x: f64) -> String { tok(x) }
 
@@ -568,7 +568,7 @@ fn gen_cases(tb: &Tables, seed: u64, tier: &str) -> Vec<Case> {
         c.y0 = toks(&(0..s.n).map(|i| (i + 1) as f64).collect::<Vec<_>>());
         c.params = toks(&[1.0]);
         c.has_sparsity = true;
-        c.pat = Pat { n: s.n, rows: s.rows.clone(), form: ["csc", "tocsc", "csc_np"][pi % 3].into(), groups: s.groups.clone(), ngroups: s.ngroups };
+        c.pat = Pat { n: s.n, rows: s.rows.clone(), form: tb.spforms[pi % tb.spforms.len()].form.clone(), groups: s.groups.clone(), ngroups: s.ngroups };
         set_method(&mut c, canonical(tb, ["BDF", "Radau"][pi % 2]));
         c.kind = "grp".into();
         c.t0 = d(0.0); c.tf = d(1.0 / 1024.0);
@@ -587,6 +587,31 @@ fn gen_cases(tb: &Tables, seed: u64, tier: &str) -> Vec<Case> {
             nfull += 1;
         }
     }
+    // 6. sparsity containers: structurally NON-symmetric patterns (lower-banded chain, arrows) x every container form of
+    //    PyLayer's table x {BDF, Radau}, complete comparison with the dense-FD Rust run
+    {
+        let named: [(&str, Vec<Vec<i64>>); 3] = [
+            ("chain", vec![vec![1, 0, 0], vec![1, 1, 0], vec![0, 1, 1]]),
+            ("arrow-col", vec![vec![1, 0, 0], vec![1, 1, 0], vec![1, 0, 1]]),
+            ("arrow-row", vec![vec![1, 1, 1], vec![0, 1, 0], vec![0, 0, 1]]),
+        ];
+        let mut k = 0usize;
+        for (_name, rows) in named.iter() {
+            let s = tb.patterns.iter().find(|s| s.n == 3 && &s.rows == rows).expect("scenario table lacks a named 3x3 pattern");
+            for f in tb.spforms.iter() {
+                k += 1;
+                let mut c = base_case("lin", 3);
+                c.a = lin_from_pattern(rows);
+                c.params = toks(&[1.0]);
+                c.has_sparsity = true;
+                c.pat = Pat { n: 3, rows: rows.clone(), form: f.form.clone(), groups: s.groups.clone(), ngroups: s.ngroups };
+                set_method(&mut c, canonical(tb, ["BDF", "Radau"][k % 2]));
+                c.t0 = d(0.0); c.tf = d(0.5);
+                c.class = "sparsity-container".into();
+                out.push(c);
+            }
+        }
+    }
     for (i, c) in out.iter_mut().enumerate() { c.id = format!("k{:05}", i + 1); }
     out
 }
@@ -596,7 +621,8 @@ fn load_tables(path: &str) -> Tables {
     let all: Vec<Scen> = serde_json::from_str(&txt).expect("scenario json");
     let pick = |k: &str| all.iter().filter(|s| s.kind == k).cloned().collect::<Vec<_>>();
     let mut tb = Tables { methods: pick("method"), tols: pick("tol"), steps: pick("step"), evattrs: pick("evattr"), jacs: pick("jac"),
-             shapes: pick("shape"), patterns: pick("pattern"), evundoc: vec![] };
+             shapes: pick("shape"), patterns: pick("pattern"), evundoc: vec![], spforms: pick("spform") };
+    tb.spforms.sort_by_key(|s| s.form.clone());
     tb.evundoc = tb.evattrs.iter().filter(|s| !s.doc).cloned().collect();
     tb.evattrs.retain(|s| s.doc);
     // deterministic order independent of TLC's worker scheduling
